@@ -1,4 +1,5 @@
 import PhyloModel.Props.C12
+import PhyloModel.Props.C12Norm
 import PhyloModel.Props.C12Stats
 #print axioms C12.tipDepthSum_eq
 #print axioms C12.tipDepthSumL_eq
@@ -9,6 +10,15 @@ import PhyloModel.Props.C12Stats
 #print axioms C12.refused_on_unrooted
 #print axioms C12.refused_on_nonbinary
 #print axioms C12.absDiff_symm
+#print axioms C12.harmonic_recursion
+#print axioms C12.harmonic_sum_is_recursion
+#print axioms C12.sackin_yule_value
+#print axioms C12.pda_squares_value
+#print axioms C12.normalisations_refused_iff
+#print axioms C12.normalisations_divisor_nonzero
+#print axioms C12.normalisations_of_tree
+#print axioms C12.normalisations_depend_only_on_tree
+#print axioms C12.exCat_ok
 #print axioms C12.C12_statistics
 #print axioms C12.C12_indices_defined
 #print axioms C12.C12_indices_refused
